@@ -211,6 +211,25 @@ def case_ledger(col, p):
                         col.violation('C04:driver%d:frozen_marginal_changed' % d, dict(info, pop=k + 1), {'maxerr': err, 'scale': msc})
                     else:
                         col.observe('frozen_marginal', err / (1e-11 * max(msc, 1e-12)))
+                # the library's own marginalisation (remove_pop / filter_pops, what a model uses to drop populations) is the trapezoid marginal,
+                # with the remaining populations in their original order
+                if d >= 2 and name == 'dense' and funcs is False:
+                    from dadi import PhiManip as PM
+                    for k in range(d):
+                        lib = np.asarray(PM.remove_pop(out.copy(), xx, k + 1))
+                        own = marginal(out, w, [q for q in range(d) if q != k])
+                        col.tick(transitions=1)
+                        if lib.shape != own.shape or not float(np.abs(lib - own).max()) <= 1e-12 * max(1.0, float(np.abs(own).max())):
+                            col.violation('C04:remove_pop:not_the_marginal', dict(info, removed=k + 1),
+                                          {'maxerr': float(np.abs(lib - own).max()) if lib.shape == own.shape else 'shape'})
+                    if d >= 3:
+                        for keep in itertools.combinations(range(d), d - 2):
+                            lib = np.asarray(PM.filter_pops(out.copy(), xx, [q + 1 for q in keep]))
+                            own = marginal(out, w, list(keep))
+                            col.tick(transitions=1)
+                            if lib.shape != own.shape or not float(np.abs(lib - own).max()) <= 1e-12 * max(1.0, float(np.abs(own).max())):
+                                col.violation('C04:filter_pops:not_the_marginal', dict(info, kept=[q + 1 for q in keep]),
+                                              {'maxerr': float(np.abs(lib - own).max()) if lib.shape == own.shape else 'shape'})
                 # (3)+(4) replay through the real kernels and ledger
                 rep, influx, outflow, ns_ = replay_steps(ic, phi0, xx, d, T, tf, nus, gammas, hs, mig, theta0, frozen, nomut, delj)
                 nus, theta0 = nus_c, th_c
